@@ -7,6 +7,9 @@ CHECKS = {
  "C01": dict(cat="translation_validation", sec="4 (C01)", technique="type-directed program generation (proptest choice vectors) + differential testing of compiled IR under lli against an independent reference interpreter; metamorphic layout variation; choice-vector shrinking",
    text="Each generated well-typed, terminating, UB-free program is printed in a plain and in a randomised layout, compiled through the real first-generation pipeline and executed with lli; full stdout and the exit status must equal the reference interpreter's for both layouts, and any rejection of a generated program is a failure.",
    note="Trusted: the reference interpreter (self-checked against native Rust arithmetic in the same check), lli-14, and the soundness of the generator's UB exclusion (re-checked by the interpreter; UB cases are discarded and counted)."),
+ "C02": dict(cat="exploration", sec="4 (C02)", technique="mutation-based and grammar-based input generation (corpus mutation, token faults on generated programs, token soup, exhaustive short token sequences in three templates, module sets) against a crash/silent-failure oracle in isolated worker processes; crash signatures by panic site / LLVM complaint / faulting function",
+   text="Every generated source or module set is pushed through the complete first-generation pipeline (lex .. generate_ir .. link) inside a worker process; the only accepted outcomes are success with IR or failure with at least one diagnostic. Panics, LLVM aborts, linker exits, segmentation faults, stack overflows, Err(anyhow) and empty error lists are failures, bucketed by site.",
+   note="Hangs are only observed up to a watchdog (exit 2). Recorded crash classes are excluded by signature and exercised by fixed probes."),
  "C03": dict(cat="translation_validation", sec="4 (C03)", technique="generated and corpus modules compiled through the real pipeline; emitted IR text validated by independent LLVM tools (opt -passes=verify, llvm-as) plus a definition/linkage scan against the generator's AST",
    text="For every accepted module (generated executable and compile-only modules incl. extern heads/exports, never-returning functions, modules without main, wasm32; and every repository sample that compiles alone) the per-module IR and the linked IR must be accepted by opt-14 -passes=verify and llvm-as-14 as separate processes, define each source function exactly once, keep main/pub functions externally visible and declare function heads.",
    note="Trusted: LLVM 14 tools as the definition of valid IR. Samples that crash the compiler are discarded here (C02's subject) and counted."),
